@@ -5,4 +5,18 @@
 /* symbolic harness input: plain uninitialised local = nondeterministic value of the full type */
 #define VF_IN(T, n) T n
 #define VF_IMP(a, b) (!(a) || (b))
+/* units built with ufmul=True: every non-constant 32/64-bit product of the code AND of the contract is the same
+   uninterpreted function, so a definitional contract pins the exact operands and association and the proof holds
+   for every binary operation in place of * (in particular for machine multiplication) */
+unsigned int __CPROVER_uninterpreted_mul32(unsigned int, unsigned int);
+unsigned long __CPROVER_uninterpreted_mul64(unsigned long, unsigned long);
+#ifdef VF_UFMUL
+#define VF_UFMUL32(a, b) __CPROVER_uninterpreted_mul32((a), (b))
+#define VF_UFMUL64(a, b) __CPROVER_uninterpreted_mul64((a), (b))
+#define VF_MUL32(a, b) __CPROVER_uninterpreted_mul32((a), (b))
+#define VF_MUL64(a, b) __CPROVER_uninterpreted_mul64((a), (b))
+#else
+#define VF_MUL32(a, b) ((unsigned int)((a) * (b)))
+#define VF_MUL64(a, b) ((unsigned long)((a) * (b)))
+#endif
 #endif
